@@ -91,6 +91,12 @@ def _seed(cls, little, needed=0, stripped=False):
     gnuoff = img.blob(w(1) + w(1) + w(1) + w(0) + [0xff] * (cls // 8) + w(1) + w(0x1234 & ~1) + w(0x5678 | 1), align=8)
     note = w(4) + w(4) + w(3) + [0x47, 0x4e, 0x55, 0] + [1, 2, 3, 4] + w(0) + w(0) + w(7)
     noteoff = img.blob(note, align=4)
+    # version records (requirement with one auxiliary, definition with one auxiliary, one version index per dynamic symbol)
+    verneed = L.encode('VERNEED', cls, little, dict(vn_version=1, vn_cnt=1, vn_file=1, vn_aux=16, vn_next=0)) + L.encode('VERNAUX', cls, little, dict(vna_hash=0x0d696914, vna_other=2, vna_name=11))
+    verdef = L.encode('VERDEF', cls, little, dict(vd_version=1, vd_flags=1, vd_ndx=1, vd_cnt=1, vd_hash=0x66, vd_aux=20, vd_next=0)) + L.encode('VERDAUX', cls, little, dict(vda_name=13))
+    vnoff = img.blob(verneed, align=4)
+    vdoff = img.blob(verdef, align=4)
+    vsoff = img.blob(enc.enc_int(0, 2, little) + enc.enc_int(2, 2, little) + enc.enc_int(1, 2, little), align=2)
     dynsz = L.sizeof('DYN', cls)
     tags = [(1, 1)] * (1 + needed) + [(5, stroff), (10, len(dynstr)), (6, symoff), (11, symsz), (4, hashoff), (0x6ffffef5, gnuoff), (0, 0)]
     dynoff = img.blob(sum([L.encode('DYN', cls, little, dict(d_tag=t, d_val=v)) for t, v in tags], []), align=8)
@@ -101,7 +107,7 @@ def _seed(cls, little, needed=0, stripped=False):
     if stripped:
         # no section header table at all (sstrip / strip --strip-section-headers): everything is found through the program headers
         data = img.build()
-        return data, dict(shoff=0, phoff=img.phoff, shent=img.shent, phent=img.phent, dyn=dynoff, sym=symoff, hash=hashoff, gnu=gnuoff, note=noteoff)
+        return data, dict(shoff=0, phoff=img.phoff, shent=img.shent, phent=img.phent, dyn=dynoff, sym=symoff, hash=hashoff, gnu=gnuoff, note=noteoff, verneed=vnoff, verdef=vdoff)
     img.section('', sh_type=0)
     img.section('.dynstr', sh_type=3, sh_offset=stroff, sh_size=len(dynstr), sh_flags=2)                                   # 1
     img.section('.dynsym', sh_type=11, sh_offset=symoff, sh_size=3 * symsz, sh_entsize=symsz, sh_link=1, sh_info=1)          # 2
@@ -113,8 +119,11 @@ def _seed(cls, little, needed=0, stripped=False):
     # a no-bits section with a (legally) huge size: it occupies no file space, so nothing may allocate its size because of a
     # corrupted index or link that designates it
     img.section('', sh_name=0, sh_type=8, sh_flags=3, sh_offset=noteoff, sh_size=0x8000000, sh_addr=0x200000)                # 8
+    img.section('', sh_name=0, sh_type=0x6ffffffe, sh_flags=2, sh_offset=vnoff, sh_size=len(verneed), sh_link=1, sh_info=1)                # 9
+    img.section('', sh_name=0, sh_type=0x6ffffffd, sh_flags=2, sh_offset=vdoff, sh_size=len(verdef), sh_link=1, sh_info=1)                 # 10
+    img.section('', sh_name=0, sh_type=0x6fffffff, sh_flags=2, sh_offset=vsoff, sh_size=6, sh_link=2, sh_entsize=2)                        # 11
     data = img.build()
-    where = dict(shoff=img.shoff, phoff=img.phoff, shent=img.shent, phent=img.phent, dyn=dynoff, sym=symoff, hash=hashoff, gnu=gnuoff, note=noteoff)
+    where = dict(shoff=img.shoff, phoff=img.phoff, shent=img.shent, phent=img.phent, dyn=dynoff, sym=symoff, hash=hashoff, gnu=gnuoff, note=noteoff, verneed=vnoff, verdef=vdoff)
     return data, where
 
 
@@ -315,12 +324,14 @@ FIELDS = [('EHDR', 0, f) for f in ('e_shoff', 'e_phoff', 'e_shnum', 'e_phnum', '
          [('PHDR', i, f) for i in (0, 1, 2) for f in ('p_offset', 'p_filesz', 'p_type', 'p_vaddr')] + \
          [('DYN', i, f) for i in (1, 3, 5, 7) for f in ('d_tag', 'd_val')] + \
          [('SYM', 1, 'st_name'), ('SYM', 2, 'st_shndx')] + \
-         [('WORD', i, 'hash') for i in (0, 1, 2)] + [('WORD', i, 'gnu') for i in (0, 1, 2, 3)] + [('WORD', i, 'note') for i in (0, 1, 5, 6)]
+         [('WORD', i, 'hash') for i in (0, 1, 2)] + [('WORD', i, 'gnu') for i in (0, 1, 2, 3)] + [('WORD', i, 'note') for i in (0, 1, 5, 6)] + \
+         [('SHDR', i, f) for i in (9, 10, 11) for f in ('sh_offset', 'sh_size', 'sh_link', 'sh_info', 'sh_entsize')] + \
+         [('WORD', i, 'verneed') for i in (0, 2, 3, 7)] + [('WORD', i, 'verdef') for i in (1, 3, 4, 6)]
 
 
 OFFSET_FIELDS = ('e_shoff', 'e_phoff', 'sh_offset', 'p_offset', 'd_val', 'sh_name', 'st_name')
 QUICK_FIELDS = [f for f in FIELDS if f[2] in ('e_shoff', 'e_phoff', 'e_shnum', 'e_phnum', 'e_shentsize', 'e_phentsize', 'e_shstrndx', 'sh_size', 'sh_entsize', 'sh_link', 'sh_offset',
-                                             'p_offset', 'p_filesz', 'd_tag', 'd_val', 'hash', 'gnu', 'note') and not (f[0] == 'SHDR' and f[1] in (5,) and f[2] == 'sh_link')]
+                                             'p_offset', 'p_filesz', 'd_tag', 'd_val', 'hash', 'gnu', 'note', 'sh_info', 'verneed', 'verdef') and not (f[0] == 'SHDR' and f[1] in (5,) and f[2] == 'sh_link')]
 
 
 BIG = 384        # dynamic entries of the long-table seeds
